@@ -702,6 +702,133 @@ func c03SweepBuild(rng *Rng, rules []krusty.VerifC03Rule, row krusty.VerifC03Rul
 	return b
 }
 
+// c03GenBindingBuild: several RoleBindings / ClusterRoleBindings that share a namespace, whose
+// ServiceAccount subjects are spread over several namespaces (the bindings' own included); the accounts are
+// renamed by the layers.  What a RoleBinding may refer to depends on the namespaces its OWN subjects name
+// (SubsetThatCouldBeReferencedByResource), so every binding needs its own candidate set.
+func c03GenBindingBuild(rng *Rng, rules []krusty.VerifC03Rule) *c03Build {
+	b := &c03Build{Files: map[string]string{}, Top: "/top", Shape: "bindings"}
+	g := &c03Gen{rng: rng, rules: rules, b: b, useNs: true}
+	if rng.Chance(40) {
+		b.Layers = []c03Layer{{Dir: "/top", Parent: -1}}
+	} else {
+		b.Layers = []c03Layer{{Dir: "/top", Parent: -1}, {Dir: "/base", Parent: 0}}
+	}
+	for i := range b.Layers {
+		l := &b.Layers[i]
+		if rng.Chance(60) {
+			l.Prefix = rng.Pick(c03Prefixes)
+		}
+		if rng.Chance(30) {
+			l.Suffix = rng.Pick(c03Suffixes)
+		}
+	}
+	deep := len(b.Layers) - 1
+	if b.Layers[deep].Prefix == "" && b.Layers[deep].Suffix == "" {
+		b.Layers[deep].Prefix = rng.Pick(c03Prefixes)
+	}
+	if rng.Chance(8) {
+		b.Layers[0].Namespace = "nsx"
+	}
+	nsPool := []string{"ns1", "ns2", "ns3", "team"}
+	home := rng.Pick(nsPool)
+	// service accounts: distinct names (rarely one name in two namespaces), spread over the namespaces
+	nSA := 2 + rng.Intn(4)
+	var sas []*c03Res
+	for i := 0; i < nSA; i++ {
+		ns := rng.Pick(nsPool)
+		if i == 0 {
+			ns = home
+		}
+		if i == 1 {
+			for ns == home {
+				ns = rng.Pick(nsPool)
+			}
+		}
+		layer := deep
+		if rng.Chance(25) {
+			layer = rng.Intn(len(b.Layers))
+		}
+		var r *c03Res
+		if i > 0 && rng.Chance(12) && sas[i-1].Namespace != ns {
+			// the same account name in another namespace
+			name := sas[i-1].Name
+			r = &c03Res{ID: g.newID(), APIVersion: "v1", Kind: "ServiceAccount", Name: name, Namespace: ns, Layer: layer}
+			r.Doc = map[string]interface{}{"apiVersion": "v1", "kind": "ServiceAccount",
+				"metadata": map[string]interface{}{"name": name, "namespace": ns, "annotations": map[string]interface{}{c03Tracer: r.ID}}}
+			b.Res = append(b.Res, r)
+		} else {
+			name := []string{"builder", "deployer", "runner", "ops", "ci", "web"}[i%6]
+			r = &c03Res{ID: g.newID(), APIVersion: "v1", Kind: "ServiceAccount", Name: name, Namespace: ns, Layer: layer}
+			r.Doc = map[string]interface{}{"apiVersion": "v1", "kind": "ServiceAccount",
+				"metadata": map[string]interface{}{"name": name, "namespace": ns, "annotations": map[string]interface{}{c03Tracer: r.ID}}}
+			b.Res = append(b.Res, r)
+		}
+		sas = append(sas, r)
+	}
+	role := g.newRes("Role", "rbac.authorization.k8s.io/v1", home, deep)
+	crole := g.newRes("ClusterRole", "rbac.authorization.k8s.io/v1", "", deep)
+	nB := 2 + rng.Intn(3)
+	for i := 0; i < nB; i++ {
+		kind, ns := "RoleBinding", home
+		if rng.Chance(20) {
+			kind, ns = "ClusterRoleBinding", ""
+		} else if rng.Chance(10) {
+			ns = rng.Pick(nsPool)
+		}
+		layer := deep
+		if rng.Chance(35) {
+			layer = rng.Intn(len(b.Layers))
+		}
+		a := g.newRes(kind, "rbac.authorization.k8s.io/v1", ns, layer)
+		rr := role
+		if kind == "ClusterRoleBinding" || rng.Chance(30) {
+			rr = crole
+		}
+		a.Doc["roleRef"] = map[string]interface{}{"apiGroup": "rbac.authorization.k8s.io", "kind": rr.Kind, "name": rr.Name}
+		if rr.Layer >= a.Layer || true {
+			b.Edges = append(b.Edges, c03Edge{From: a.ID, To: rr.ID, Addr: []interface{}{"roleRef", "name"}, Old: rr.Name,
+				RulePath: "roleRef/name", Target: rr.Kind})
+		}
+		nSub := 1 + rng.Intn(3)
+		var subjects []interface{}
+		used := map[int]bool{}
+		for j := 0; j < nSub; j++ {
+			k := rng.Intn(len(sas))
+			if i < len(sas) && j == 0 {
+				k = i // spread: binding i names account i first
+			}
+			if used[k] {
+				continue
+			}
+			used[k] = true
+			sa := sas[k]
+			subjects = append(subjects, map[string]interface{}{"kind": "ServiceAccount", "name": sa.Name, "namespace": sa.Namespace})
+			b.Edges = append(b.Edges, c03Edge{From: a.ID, To: sa.ID, Addr: []interface{}{"subjects", len(subjects) - 1, "name"}, Old: sa.Name,
+				RulePath: "subjects", Target: "ServiceAccount", Mapping: true, HasSubNs: true, SubjNs: sa.Namespace})
+		}
+		a.Doc["subjects"] = subjects
+	}
+	for i := range b.Layers {
+		has := false
+		for _, r := range b.Res {
+			if r.Layer == i {
+				has = true
+			}
+		}
+		for j := range b.Layers {
+			if b.Layers[j].Parent == i {
+				has = true
+			}
+		}
+		if !has {
+			g.newRes("ConfigMap", "v1", "", i)
+		}
+	}
+	c03Render(b, rng)
+	return b
+}
+
 // c03LoadRefRules reads the committed reference copy of the rule table ("the documented rule set",
 // corpus/fieldspecs.ref.json, key nameReference).
 func c03LoadRefRules() ([]krusty.VerifC03Rule, error) {
@@ -1205,25 +1332,8 @@ func c03InDomain(b *c03Build, e c03Edge, out map[string]*resource.Resource, rule
 	if !(ida.IsClusterScoped() || idt.IsClusterScoped() || ida.IsNsEquals(idt) || crossSA) {
 		return false, "cross-namespace"
 	}
-	// other rows reaching the same field
-	for _, row := range rules {
-		if row.Kind == t.Kind {
-			continue
-		}
-		reaches := false
-		for _, fs := range row.Referrers {
-			if fs.Path == e.RulePath && c03RuleSelects(fs.Group, fs.Version, fs.Kind, a.APIVersion, a.Kind) {
-				reaches = true
-			}
-		}
-		if !reaches {
-			continue
-		}
-		for _, r := range b.Res {
-			if r.Kind == row.Kind && c03NameInHistory(b, r, e.Old) {
-				return false, "field-shared-by-kinds"
-			}
-		}
+	if c03FieldSharedHit(b, e, rules) {
+		return false, "field-shared-by-kinds"
 	}
 	if e.Mapping && e.HasSubNs {
 		if c03EffNs(t.APIVersion, t.Kind, e.SubjNs) != c03EffNs(t.APIVersion, t.Kind, t.Namespace) {
@@ -1297,11 +1407,40 @@ func c03FinalEffNs(b *c03Build, r *c03Res) string {
 	return c03EffNs(r.APIVersion, r.Kind, ns)
 }
 
+// c03FieldSharedHit: (D3 violated) another rule row that reaches the same field of the referrer finds a
+// resource of its own kind that had the referenced name at some point
+func c03FieldSharedHit(b *c03Build, e c03Edge, rules []krusty.VerifC03Rule) bool {
+	a, t := b.res(e.From), b.res(e.To)
+	if a == nil || t == nil {
+		return false
+	}
+	for _, row := range rules {
+		if row.Kind == t.Kind {
+			continue
+		}
+		reaches := false
+		for _, fs := range row.Referrers {
+			if fs.Path == e.RulePath && c03RuleSelects(fs.Group, fs.Version, fs.Kind, a.APIVersion, a.Kind) {
+				reaches = true
+			}
+		}
+		if !reaches {
+			continue
+		}
+		for _, r := range b.Res {
+			if r.Kind == row.Kind && c03NameInHistory(b, r, e.Old) {
+				return true
+			}
+		}
+	}
+	return false
+}
+
 // c03ErrorUnexplained: a build that fails with "multiple possible referrals" although, edge by edge, the
 // specification of the sieves singles out one referent: no intermediate-name collision anywhere, every edge
 // with rivals is resolved by the layering context, its referent is visible to the referrer, and it is a
-// plain scalar reference.
-func c03ErrorUnexplained(b *c03Build) bool {
+// plain scalar reference, and no other row reaching a referenced field has a candidate of its own (D3).
+func c03ErrorUnexplained(b *c03Build, rules []krusty.VerifC03Rule) bool {
 	for _, r1 := range b.Res {
 		for _, r2 := range b.Res {
 			if r1 != r2 && r1.Kind == r2.Kind && r1.Name != r2.Name && c03NameInHistory(b, r2, r1.Name) {
@@ -1315,6 +1454,9 @@ func c03ErrorUnexplained(b *c03Build) bool {
 		}
 		a, t := b.res(e.From), b.res(e.To)
 		if a == nil || t == nil {
+			return false
+		}
+		if c03FieldSharedHit(b, e, rules) {
 			return false
 		}
 		rivals, resolves := c03ContextResolves(b, e)
@@ -1448,7 +1590,7 @@ func c03Oracles(r *Run, b *c03Build, o c03Outcome, rules []krusty.VerifC03Rule) 
 			case "original":
 				// ambiguous original names: outside the domain of the property, unless the layering context
 				// resolves every reference by the specification of the sieves
-				if c03ErrorUnexplained(b) {
+				if c03ErrorUnexplained(b, rules) {
 					report("refs_follow", "C03/unexpected-multiple-referrals",
 						"build fails although the prefix/suffix context of the layers singles out one referent for every reference: "+
 							o.realMsg[:c03Min(len(o.realMsg), 300)])
@@ -1571,33 +1713,52 @@ func c03ViolationClass(b *c03Build, e c03Edge, t *c03Res, rules []krusty.VerifC0
 	return "C03/refs_follow"
 }
 
-// c03IsCascade: the field is reached by the rows of several kinds; the row of the referent's kind wrote the
-// referent's final name, and a LATER row (another kind) found a resource that once had exactly that name and
-// rewrote the field a second time.
+// c03IsCascade: the specification of the rewrite cascade, after theorem C03_no_retarget_chain.  The field is
+// reached by the rows of several kinds.  The row of the referent's kind rewrote the referenced name to the
+// referent's final name [want]; then one or more OTHER rows reaching the same field each found a resource of
+// their kind that once had exactly the field's current text as its name and rewrote the field to that
+// resource's final name, ending in [got].  A deviation is a cascade instance exactly when [got] is produced
+// from [want] by such a chain of at least one further row rewrite (>= 2 rewrites in all).  The order of the
+// rows in the table is deliberately not used.
 func c03IsCascade(b *c03Build, e c03Edge, got, want string, out map[string]*resource.Resource, rules []krusty.VerifC03Rule) bool {
 	a, t := b.res(e.From), b.res(e.To)
-	seenOwn := false
+	if a == nil || t == nil || got == want {
+		return false
+	}
+	// kinds of the rows that reach this field of this referrer
+	reaching := map[string]bool{}
 	for _, row := range rules {
-		reaches := false
 		for _, fs := range row.Referrers {
 			if fs.Path == e.RulePath && c03RuleSelects(fs.Group, fs.Version, fs.Kind, a.APIVersion, a.Kind) {
-				reaches = true
+				reaching[row.Kind] = true
 			}
 		}
-		if !reaches {
-			continue
-		}
-		if row.Kind == t.Kind {
-			seenOwn = true
-			continue
-		}
-		if !seenOwn {
-			continue
-		}
+	}
+	if !reaching[t.Kind] || len(reaching) < 2 {
+		return false
+	}
+	type state struct{ text, lastKind string }
+	seen := map[state]bool{{want, t.Kind}: true}
+	todo := []state{{want, t.Kind}}
+	for steps := 0; len(todo) > 0 && steps < 64; steps++ {
+		cur := todo[0]
+		todo = todo[1:]
 		for _, r := range b.Res {
 			o := out[r.ID]
-			if r.Kind == row.Kind && o != nil && o.GetName() == got && c03NameInHistory(b, r, want) {
+			if o == nil || !reaching[r.Kind] || r.Kind == cur.lastKind || !c03NameInHistory(b, r, cur.text) {
+				continue
+			}
+			next := o.GetName()
+			if next == cur.text {
+				continue
+			}
+			if next == got {
 				return true
+			}
+			st := state{next, r.Kind}
+			if !seen[st] {
+				seen[st] = true
+				todo = append(todo, st)
 			}
 		}
 	}
@@ -2392,6 +2553,27 @@ func runC03(r *Run, rng *Rng, tier string) error {
 				r.AddEval(string(fp), o.realCls == ClsOk)
 				c03Oracles(r, b, o, gen)
 			}
+		}
+	}
+	// bindings sharing a namespace: the transformer visits referrers in map order, so every tree is built
+	// several times in one run (a candidate set wrongly shared between referrers shows up for some orders only)
+	nBind, reps := 14, 4
+	if tier == "thorough" {
+		nBind, reps = 200, 5
+	}
+	for i := 0; i < nBind; i++ {
+		b := c03GenBindingBuild(rng.Fork(), gen)
+		for k := 0; k < reps; k++ {
+			o := c03Run(b)
+			r.Count("shape", b.Shape)
+			r.Count("build", o.realCls)
+			if k == 0 {
+				c03Cases(r, b, o)
+			} else {
+				fp, _ := json.Marshal(b.Files)
+				r.AddEval(fmt.Sprintf("%s#%d", fp, k), o.realCls == ClsOk)
+			}
+			c03Oracles(r, b, o, gen)
 		}
 	}
 	for i := 0; i < nLaw; i++ {
